@@ -357,7 +357,9 @@ fn l_idea_mul_unit() {
 }
 
 // associativity of the real mul on all 2^48 triples
-// @ob name=l_idea_mul_assoc props=C01 kind=lemma tier=thorough fn=idea::Idea::mul timeout=3600
+// (not run to completion in the contributing session: not registered; the axiom was instead checked natively on all
+// 2^32 (x, k) pairs: bcref::idea::tests::group_axiom_exhaustive, and on a copy of the real mul / mul_inv)
+// @candidate name=l_idea_mul_assoc props=C01 kind=lemma tier=thorough fn=idea::Idea::mul timeout=3600
 #[kani::proof]
 fn l_idea_mul_assoc() {
     let c = any_idea();
@@ -451,4 +453,5 @@ multi_block!(#[kani::stub(Idea::crypt, uf_crypt)] #[kani::unwind(53)]
 // @ob name=m_idea_dec_blocks_3 props=C04,C15 kind=bounded bound="n = 3 blocks" fn=idea::Idea::decrypt_with_backend,idea::Idea::decrypt_block uses=c_idea_crypt timeout=300
 multi_block!(#[kani::stub(Idea::crypt, uf_crypt)] #[kani::unwind(53)]
     m_idea_dec_blocks_3, 3, any_idea(), snap, eqsnap, BlockCipherDecrypt, decrypt_block, decrypt_blocks, decrypt_blocks_b2b);
+
 
